@@ -102,6 +102,26 @@ pub fn symbols_of_size(n: usize, vals: &[usize]) -> Vec<DS> {
 
 pub const CRYSTALLOGRAPHIC: [usize; 5] = [1, 2, 3, 4, 6];
 
+/// The 3D symbols used by C15 / C17: all of them up to `full` chambers, then every `stride`-th
+/// symbol (in generation order, a deterministic slice) of the sizes up to `sliced`.
+/// Returns the symbols and a description of the bound.
+pub fn symbol_pool(full: usize, sliced: usize, stride: usize) -> (Vec<DS>, String) {
+    let mut out = vec![];
+    for n in 1..=full {
+        out.extend(symbols_of_size(n, &CRYSTALLOGRAPHIC));
+    }
+    let nfull = out.len();
+    for n in (full + 1)..=sliced {
+        out.extend(symbols_of_size(n, &CRYSTALLOGRAPHIC).into_iter().step_by(stride));
+    }
+    let text = if sliced > full {
+        format!("all {} symbols with <= {} chambers and every {}th symbol ({}) of those with {}..={} chambers", nfull, full, stride, out.len() - nfull, full + 1, sliced)
+    } else {
+        format!("all {} symbols with <= {} chambers", nfull, full)
+    };
+    (out, text)
+}
+
 // ---------------------------------------------------------------------------
 // euclidean 2D symbols with all degrees >= 3, by own classification
 
